@@ -19,6 +19,8 @@ pub enum CV {
     Bool(bool),
     List(Vec<CV>),
     IVec(Vec<CV>),
+    /// a mutable vector that the scripts never mutate (only equal? / hashing look at it)
+    MVec(Vec<CV>),
     /// canonical key string -> (key, value)
     Hash(BTreeMap<String, (CV, CV)>),
     Set(BTreeMap<String, CV>),
@@ -106,6 +108,16 @@ impl CV {
                 }
                 out.push(')');
             }
+            CV::MVec(v) => {
+                out.push_str("#m(");
+                for (i, x) in v.iter().enumerate() {
+                    if i > 0 {
+                        out.push(' ');
+                    }
+                    x.canon_into(out);
+                }
+                out.push(')');
+            }
             CV::Hash(m) => {
                 let mut items: Vec<(String, String)> = m.values().map(|(k, v)| (k.canon(), v.canon())).collect();
                 items.sort();
@@ -151,6 +163,7 @@ impl CV {
             CV::Bool(false) => "#f".into(),
             CV::List(v) => format!("(list{})", v.iter().map(|x| format!(" {}", x.expr())).collect::<String>()),
             CV::IVec(v) => format!("(immutable-vector{})", v.iter().map(|x| format!(" {}", x.expr())).collect::<String>()),
+            CV::MVec(v) => format!("(vector{})", v.iter().map(|x| format!(" {}", x.expr())).collect::<String>()),
             CV::Hash(m) => format!("(hash{})", m.values().map(|(k, v)| format!(" {} {}", k.expr(), v.expr())).collect::<String>()),
             CV::Set(m) => format!("(hashset{})", m.values().map(|k| format!(" {}", k.expr())).collect::<String>()),
             CV::Bytes(b) => format!("(bytes{})", b.iter().map(|x| format!(" {}", x)).collect::<String>()),
@@ -169,7 +182,7 @@ impl CV {
                 e.0 += 1;
             }
             match v {
-                CV::List(xs) | CV::IVec(xs) => xs.iter().for_each(|x| walk(x, counts)),
+                CV::List(xs) | CV::IVec(xs) | CV::MVec(xs) => xs.iter().for_each(|x| walk(x, counts)),
                 CV::Hash(m) => m.values().for_each(|(k, x)| {
                     walk(k, counts);
                     walk(x, counts)
@@ -198,6 +211,7 @@ impl CV {
             match v {
                 CV::List(xs) => format!("(list{})", xs.iter().map(|x| format!(" {}", ex(x, names, skip))).collect::<String>()),
                 CV::IVec(xs) => format!("(immutable-vector{})", xs.iter().map(|x| format!(" {}", ex(x, names, skip))).collect::<String>()),
+                CV::MVec(xs) => format!("(vector{})", xs.iter().map(|x| format!(" {}", ex(x, names, skip))).collect::<String>()),
                 CV::Hash(m) => format!("(hash{})", m.values().map(|(k, x)| format!(" {} {}", ex(k, names, skip), ex(x, names, skip))).collect::<String>()),
                 CV::Set(m) => format!("(hashset{})", m.values().map(|x| format!(" {}", ex(x, names, skip))).collect::<String>()),
                 _ => v.expr(),
@@ -213,11 +227,52 @@ impl CV {
 
     pub fn size(&self) -> usize {
         match self {
-            CV::List(xs) | CV::IVec(xs) => 1 + xs.iter().map(|x| x.size()).sum::<usize>(),
+            CV::List(xs) | CV::IVec(xs) | CV::MVec(xs) => 1 + xs.iter().map(|x| x.size()).sum::<usize>(),
             CV::Hash(m) => 1 + m.values().map(|(k, v)| k.size() + v.size()).sum::<usize>(),
             CV::Set(m) => 1 + m.values().map(|k| k.size()).sum::<usize>(),
             _ => 1,
         }
+    }
+
+    fn same_seq(&self, ys: Vec<CV>) -> CV {
+        match self {
+            CV::List(_) => CV::List(ys),
+            CV::IVec(_) => CV::IVec(ys),
+            _ => CV::MVec(ys),
+        }
+    }
+
+    /// the same leaves in the same order under a different nesting: an element next to a nested
+    /// sequence of the same kind moves into it ((1 2 (3)) -> (1 (2 3))); None if there is none
+    pub fn reshape(&self) -> Option<CV> {
+        let (CV::List(xs) | CV::IVec(xs) | CV::MVec(xs)) = self else { return None };
+        for i in 0..xs.len() {
+            let same_kind = std::mem::discriminant(&xs[i]) == std::mem::discriminant(self);
+            if let (true, CV::List(inner) | CV::IVec(inner) | CV::MVec(inner)) = (same_kind, &xs[i]) {
+                if i > 0 {
+                    let mut ys = xs.clone();
+                    let moved = ys.remove(i - 1);
+                    let mut inn = inner.clone();
+                    inn.insert(0, moved);
+                    ys[i - 1] = xs[i].same_seq(inn);
+                    return Some(self.same_seq(ys));
+                }
+                if i + 1 < xs.len() {
+                    let mut ys = xs.clone();
+                    let moved = ys.remove(i + 1);
+                    let mut inn = inner.clone();
+                    inn.push(moved);
+                    ys[i] = xs[i].same_seq(inn);
+                    return Some(self.same_seq(ys));
+                }
+            }
+            if let Some(r) = xs[i].reshape() {
+                let mut ys = xs.clone();
+                ys[i] = r;
+                return Some(self.same_seq(ys));
+            }
+        }
+        None
     }
 
     /// a value of the same shape that differs in exactly one leaf (None if there is no leaf)
@@ -239,15 +294,16 @@ impl CV {
                 }
                 Some(CV::Bytes(b))
             }
-            CV::List(xs) | CV::IVec(xs) => {
-                if xs.is_empty() {
-                    let v = vec![CV::Int(0)];
-                    return Some(if matches!(self, CV::List(_)) { CV::List(v) } else { CV::IVec(v) });
-                }
-                let i = c.below(xs.len());
-                let mut ys = xs.clone();
-                ys[i] = xs[i].perturb(c)?;
-                Some(if matches!(self, CV::List(_)) { CV::List(ys) } else { CV::IVec(ys) })
+            CV::List(xs) | CV::IVec(xs) | CV::MVec(xs) => {
+                let ys = if xs.is_empty() {
+                    vec![CV::Int(0)]
+                } else {
+                    let i = c.below(xs.len());
+                    let mut ys = xs.clone();
+                    ys[i] = xs[i].perturb(c)?;
+                    ys
+                };
+                Some(self.same_seq(ys))
             }
             CV::Hash(m) => {
                 if m.is_empty() {
@@ -311,6 +367,10 @@ pub struct Piece {
     /// fresh copy"
     #[serde(default)]
     pub fresh_env: String,
+    /// (index into the piece's result list, canonical form): components of the result that are
+    /// *earlier* values which the piece's update must have left unchanged
+    #[serde(default)]
+    pub unchanged: Vec<(usize, String)>,
 }
 
 #[derive(Clone, Debug, Default, Serialize, Deserialize)]
@@ -380,6 +440,12 @@ impl<'c, 'd> G<'c, 'd> {
         }
     }
 
+    /// nested mutable vectors (never mutated by the scripts)
+    fn mvec(&mut self, depth: usize) -> CV {
+        let n = 1 + self.c.below(3);
+        CV::MVec((0..n).map(|_| if depth > 0 && self.c.chance(1, 2) { self.mvec(depth - 1) } else { self.leaf() }).collect())
+    }
+
     /// hash keys: any immutable value, often a collection
     fn key(&mut self, depth: usize) -> CV {
         let v = if self.c.chance(1, 3) { self.value(depth.min(2)) } else { self.leaf() };
@@ -418,8 +484,9 @@ impl<'c, 'd> G<'c, 'd> {
 
     /// one operation on variable `x` (text uses the placeholder name given): (op name, expression, model result)
     fn op(&mut self, xe: &str, xv: &CV) -> Option<(String, String, Result<CV, ()>)> {
-        let arg = if self.c.chance(1, 3) && !self.vars.is_empty() {
-            let i = self.c.below(self.vars.len());
+        let immutable: Vec<usize> = self.vars.iter().enumerate().filter(|(_, (_, v))| !matches!(v, CV::MVec(_))).map(|(i, _)| i).collect();
+        let arg = if self.c.chance(1, 3) && !immutable.is_empty() {
+            let i = immutable[self.c.below(immutable.len())];
             let (n, v) = self.vars[i].clone();
             (n, v)
         } else {
@@ -612,7 +679,7 @@ impl<'c, 'd> G<'c, 'd> {
         self.st.observes += 1;
         let names: Vec<String> = self.vars.iter().map(|(n, _)| n.clone()).collect();
         let vals: Vec<CV> = self.vars.iter().map(|(_, v)| v.clone()).collect();
-        pieces.push(Piece { src: format!("(list {})", names.join(" ")), expect: Expect::Value(CV::List(vals).canon()), what: "observe-all".into(), fresh_env: String::new() });
+        pieces.push(Piece { src: format!("(list {})", names.join(" ")), expect: Expect::Value(CV::List(vals).canon()), what: "observe-all".into(), fresh_env: String::new(), unchanged: vec![] });
     }
 }
 
@@ -629,26 +696,26 @@ pub fn generate(data: &[u16], o: &Opts) -> Script {
         match choice {
             0 => {
                 // a fresh value (literal constructor, possibly with shared sub-objects)
-                let v = g.value(3);
+                let v = if g.c.chance(1, 6) { g.mvec(2) } else { g.value(3) };
                 if v.size() > 60 {
                     continue;
                 }
                 let name = format!("v{}", g.fresh);
                 g.fresh += 1;
                 let e = if g.c.chance(1, 2) { v.expr_shared() } else { v.expr() };
-                pieces.push(Piece { src: format!("(define {} {})\n{}", name, e, name), expect: Expect::Value(v.canon()), what: "construct".into(), fresh_env: String::new() });
+                pieces.push(Piece { src: format!("(define {} {})\n{}", name, e, name), expect: Expect::Value(v.canon()), what: "construct".into(), fresh_env: String::new(), unchanged: vec![] });
                 g.vars.push((name, v));
             }
             1 => {
                 // an operation on an existing variable under a sharing / last-use pattern
                 let i = g.c.below(g.vars.len());
                 let (xn, xv) = g.vars[i].clone();
-                let pat = g.c.below(if o.threads { 8 } else { 7 });
+                let pat = g.c.below(if o.threads { 9 } else { 7 });
                 let Some((opname, e1, r1)) = g.op(if pat == 0 || pat == 2 { &xn } else { "x" }, &xv) else { continue };
                 *g.st.ops.entry(opname.clone()).or_insert(0) += 1;
                 let name = format!("v{}", g.fresh);
                 g.fresh += 1;
-                let patname = ["direct", "let-last-use", "chained", "function-parameter", "closure-capture", "keep-old-and-new", "container-then-update", "thread"][pat];
+                let patname = ["direct", "let-last-use", "chained", "function-parameter", "closure-capture", "keep-old-and-new", "container-then-update", "thread", "other-thread-holds-a-clone"][pat];
                 *g.st.patterns.entry(patname.to_string()).or_insert(0) += 1;
                 let (src, expect, newval): (String, Expect, Option<CV>) = match (pat, r1) {
                     (_, Err(())) => {
@@ -668,7 +735,18 @@ pub fn generate(data: &[u16], o: &Opts) -> Script {
                             _ => (format!("(define {} {})\n{}", name, e1, name), Expect::Value(v.canon()), Some(v)),
                         }
                     }
-                    (3, Ok(v)) => (format!("(define (f{} x) {})\n(define {} (f{} {}))\n{}", name, e1, name, name, xn, name), Expect::Value(v.canon()), Some(v)),
+                    (3, Ok(v)) => {
+                        // 0-6 parameters before x; x is read plainly before the update in the same argument list
+                        let k = g.c.below(7);
+                        let dummies: String = (0..k).map(|j| format!("p{} ", j)).collect();
+                        let dargs: String = (0..k).map(|j| format!("{} ", j)).collect();
+                        let both = CV::List(vec![xv.clone(), v]);
+                        (
+                            format!("(define (f{} {}x) (list x {}))\n(define {} (f{} {}{}))\n{}", name, dummies, e1, name, name, dargs, xn, name),
+                            Expect::Value(both.canon()),
+                            Some(both),
+                        )
+                    }
                     (4, Ok(v)) => (
                         format!("(define g{} (let ((x {})) (lambda () {})))\n(define {} (g{}))\n(list {} (g{}))", name, xn, e1, name, name, name, name),
                         Expect::Value(CV::List(vec![v.clone(), v.clone()]).canon()),
@@ -693,14 +771,46 @@ pub fn generate(data: &[u16], o: &Opts) -> Script {
                         Expect::Value(CV::List(vec![xv.clone(), v.clone(), xv.clone()]).canon()),
                         Some(CV::List(vec![xv.clone(), v, xv.clone()])),
                     ),
-                    (_, Ok(v)) => (
+                    (7, Ok(v)) => (
                         format!("(define {} (let ((x {})) (thread-join! (spawn-native-thread (lambda () {})))))\n{}", name, xn, e1, name),
                         Expect::Value(v.canon()),
                         Some(v),
                     ),
+                    (_, Ok(v)) => {
+                        // a value built on this thread; another thread takes its own reference by reading
+                        // a box; this thread drops every reference but one and updates at the last use
+                        let src = format!(
+                            "(define {} (let* ((slot (box #f)) (to-main (channels/new)) (to-thread (channels/new)) (x {}))\n  (set-box! slot x)\n  (let ((t (spawn-native-thread (lambda () (let ((mine (unbox slot))) (channel/send (channels-sender to-main) 1) (channel/recv (channels-receiver to-thread)) mine)))))\n    (channel/recv (channels-receiver to-main))\n    (set-box! slot #f)\n    (let ((updated {}))\n      (channel/send (channels-sender to-thread) 1)\n      (list (thread-join! t) updated)))))\n{}",
+                            name,
+                            xv.expr(),
+                            e1,
+                            name
+                        );
+                        let both = CV::List(vec![xv.clone(), v]);
+                        (src, Expect::Value(both.canon()), Some(both))
+                    }
                 };
                 let fresh_env: String = g.vars.iter().map(|(n, v)| format!("(define {} {})\n", n, v.expr())).collect();
-                pieces.push(Piece { src, expect, what: format!("{}:{}", opname, patname), fresh_env });
+                let unchanged: Vec<(usize, String)> = if expect == Expect::Error {
+                    vec![]
+                } else {
+                    match pat {
+                        5 => {
+                            let mut u = vec![(0, xv.canon())];
+                            if let Some(CV::List(parts)) = &newval {
+                                if parts.len() == 3 {
+                                    u.push((1, parts[1].canon()));
+                                }
+                            }
+                            u
+                        }
+                        3 => vec![(0, xv.canon())],
+                        6 => vec![(0, xv.canon()), (2, xv.canon())],
+                        8 => vec![(0, xv.canon())],
+                        _ => vec![],
+                    }
+                };
+                pieces.push(Piece { src, expect, what: format!("{}:{}", opname, patname), fresh_env, unchanged });
                 if let Some(v) = newval {
                     if v.size() <= 80 {
                         g.vars.push((name, v));
@@ -721,14 +831,21 @@ pub fn generate(data: &[u16], o: &Opts) -> Script {
                     Some(o) if o.canon() != xv.canon() => (o.expr(), true),
                     _ => (xv.expr(), false),
                 };
+                // the same leaves under a different nesting must not be equal?
+                let reshaped = xv.reshape().filter(|r| r.canon() != xv.canon());
+                let (de, reshaped_differs) = match &reshaped {
+                    Some(r) => (r.expr(), true),
+                    None => (xv.expr(), false),
+                };
                 let src = format!(
-                    "(let ((a {}) (b {}) (c {})) (list (equal? a b) (equal? b a) (equal? a a) (equal? a c) (equal? c a) (hash-ref (hash a 7) b) (hash-contains? (hash a 7) c) (hashset-contains? (hashset a) b) (hashset-contains? (hashset a) c) (hash-length (hash a 1 b 2)) (hashset-length (hashset a b c)) (if (member b (list c a)) #t #f)))",
-                    xn, copy, oe
+                    "(let ((a {}) (b {}) (c {}) (d {})) (list (equal? a b) (equal? b a) (equal? a a) (equal? a c) (equal? c a) (hash-ref (hash a 7) b) (hash-contains? (hash a 7) c) (hashset-contains? (hashset a) b) (hashset-contains? (hashset a) c) (hash-length (hash a 1 b 2)) (hashset-length (hashset a b c)) (if (member b (list c a)) #t #f) (equal? a d) (equal? d a)))",
+                    xn, copy, oe, de
                 );
                 let t = CV::Bool(true);
                 let d = CV::Bool(!differs);
-                let exp = CV::List(vec![t.clone(), t.clone(), t.clone(), d.clone(), d.clone(), CV::Int(7), d.clone(), t.clone(), d.clone(), CV::Int(1), CV::Int(if differs { 2 } else { 1 }), t.clone()]);
-                pieces.push(Piece { src, expect: Expect::Value(exp.canon()), what: format!("equal-hash:{:?}", xv.kind()), fresh_env: String::new() });
+                let r = CV::Bool(!reshaped_differs);
+                let exp = CV::List(vec![t.clone(), t.clone(), t.clone(), d.clone(), d.clone(), CV::Int(7), d.clone(), t.clone(), d.clone(), CV::Int(1), CV::Int(if differs { 2 } else { 1 }), t.clone(), r.clone(), r]);
+                pieces.push(Piece { src, expect: Expect::Value(exp.canon()), what: format!("equal-hash:{:?}", xv.kind()), fresh_env: String::new(), unchanged: vec![] });
             }
             _ => g.observe(&mut pieces),
         }
